@@ -161,7 +161,7 @@ Definition C09_cmp_float_stmt : Prop :=
 Theorem C09_cmp_float_float : forall p a b va vb,
   f64_to_Q a = Some va -> f64_to_Q b = Some vb ->
   num_partial_cmp p (Float a) (Float b) = Ok (Some (va ?= vb)%Q).
-Proof. intros p a b va vb Ha Hb. exact (f_equal Ok (f64_cmp_finite a b va vb Ha Hb)). Qed.
+Proof. exact cmp_float_float. Qed.
 Print Assumptions C09_cmp_float_float.
 
 (* all 16 representation pairs, finite values: C09_cmp_float_stmt with fval := f64_to_Q and
@@ -199,6 +199,43 @@ Theorem C09_int_exact_in_f64 : forall z m e,
   exists q, f64_to_Q (f64_of_Z z) = Some q /\ (q == inject_Z z)%Q.
 Proof. exact f64_of_Z_exact. Qed.
 Print Assumptions C09_int_exact_in_f64.
+
+(* == on all non-NaN numbers: decided by the values *)
+Theorem C09_eq_float_inf : forall p a b va vb,
+  wfb a = true -> wfb b = true -> non_nan a = true -> non_nan b = true ->
+  float_side_exact a b = true ->
+  nvalx a = Some va -> nvalx b = Some vb ->
+  num_eq p a b = Ok (is_Eq (xq_cmp va vb)).
+Proof. exact eq_all_pairs_inf. Qed.
+Print Assumptions C09_eq_float_inf.
+
+(* C09_full (transitivity of =) holds for all non-NaN numbers outside the class
+   exact-vs-inexact-by-rounding, i.e. when none of the three comparisons rounds an exact
+   operand; likewise transitivity of < and trichotomy *)
+Theorem C09_full_outside_rounding : forall p a b c,
+  wfb a = true -> wfb b = true -> wfb c = true ->
+  non_nan a = true -> non_nan b = true -> non_nan c = true ->
+  float_side_exact a b = true -> float_side_exact b c = true -> float_side_exact a c = true ->
+  num_eq p a b = Ok true -> num_eq p b c = Ok true -> num_eq p a c = Ok true.
+Proof. exact eq_trans_all. Qed.
+Print Assumptions C09_full_outside_rounding.
+
+Theorem C09_lt_trans_float : forall p a b c,
+  wfb a = true -> wfb b = true -> wfb c = true ->
+  non_nan a = true -> non_nan b = true -> non_nan c = true ->
+  float_side_exact a b = true -> float_side_exact b c = true -> float_side_exact a c = true ->
+  num_lt p a b = Ok true -> num_lt p b c = Ok true -> num_lt p a c = Ok true.
+Proof. exact lt_trans_all. Qed.
+Print Assumptions C09_lt_trans_float.
+
+Theorem C09_trichotomy_float : forall p a b,
+  wfb a = true -> wfb b = true -> non_nan a = true -> non_nan b = true ->
+  float_side_exact a b = true ->
+  exists lt eq gt, num_lt p a b = Ok lt /\ num_eq p a b = Ok eq /\ num_gt p a b = Ok gt /\
+    ((lt = true /\ eq = false /\ gt = false) \/ (lt = false /\ eq = true /\ gt = false) \/
+     (lt = false /\ eq = false /\ gt = true)).
+Proof. exact trichotomy_all. Qed.
+Print Assumptions C09_trichotomy_float.
 
 (* refutations of the statement as first written *)
 Theorem C09_cmp_float_refuted : ~ C09_cmp_float_stmt.
@@ -245,4 +282,13 @@ Example C09_example_float :
   float_side_exact (Rational 1 3) (Float (f64_of_bits 0x3fd5555555555555)) = false /\
   nvalx (Float (f64_inf true)) = Some XNegInf /\
   float_side_exact (Rational 1 3) (Fixnum (2 ^ 60 + 1)) = true.
+Proof. repeat split; vm_compute; reflexivity. Qed.
+
+(* C09_full_outside_rounding: a chain across three representations satisfying all its
+   hypotheses ((= 4 4.0 8/2-as-BigInt)), and the refuting triple of C09_refuted_rounding outside *)
+Example C09_example_trans :
+  let a := Fixnum 4 in let b := Float (f64_of_Z 4) in let c := BigInt 4 in
+  float_side_exact a b = true /\ float_side_exact b c = true /\ float_side_exact a c = true /\
+  num_eq Debug a b = Ok true /\ num_eq Debug b c = Ok true /\
+  float_side_exact (Fixnum 9007199254740993) (Float (f64_of_Z 9007199254740992)) = false.
 Proof. repeat split; vm_compute; reflexivity. Qed.
